@@ -173,6 +173,9 @@ def get_object_status(frame_results: List[PerceptionFrameResult]) -> List[Ground
         for fp_object_result in frame_result.pass_fail_result.fp_object_results:
             if fp_object_result.ground_truth_object is None:
                 continue
+            # NOTE: GT matched with FP estimation is recorded as FN below, unless it is labeled as FP
+            if not fp_object_result.ground_truth_object.semantic_label.is_fp():
+                continue
             if fp_object_result.ground_truth_object.uuid not in status_infos:
                 fp_status = GroundTruthStatus(fp_object_result.ground_truth_object.uuid)
                 fp_status.add_status(MatchingStatus.FP, frame_num)
